@@ -179,7 +179,13 @@ where
     let shard = self.shared.store.get_shard(&key);
     let guard = shard.map.write();
 
-    if guard.contains_key(&key) {
+    // An expired entry that has not been collected yet is treated as vacant,
+    // like `get` and `peek` treat it as absent.
+    let is_live = guard
+      .get(&key)
+      .map_or(false, |entry| !entry.is_expired(self.shared.time_to_idle));
+
+    if is_live {
       Entry::Occupied(OccupiedEntry {
         key,
         shard_guard: guard,
